@@ -128,6 +128,19 @@ def main():
     if len(ends) < 4 or len(end_vals) != 1:
         die("expected >= 4 identical `&theBuffer[<end>]` end pointers, found %r" % ends)
     int_end = end_vals.pop()
+    # formatSmallNumber (c8ec637): "%.17e" into theScientific[N], expanded into theBuffer as [-]0.<zeros><18 digits>
+    sci = 0
+    small_digits = 0
+    if re.search(r"\bformatSmallNumber\s*\(", dsh):
+        m = need(r"char\s+theScientific\s*\[(\d+)\]\s*;", dsh, "formatSmallNumber: theScientific[N]")
+        sci = int(m.group(1))
+        m = need(r'sprintf\(theScientific,\s*"%\.(\d+)e",\s*theValue\)', raw_dsh, 'formatSmallNumber: sprintf(theScientific, "%.17e", …)')
+        small_digits = int(m.group(1)) + 1
+        need(r"for\s*\(int\s+theZeros\s*=\s*atoi\(theExponentMark\s*\+\s*2\)\s*-\s*1;\s*theZeros\s*>\s*0;\s*--theZeros\)", dsh, "formatSmallNumber: exponent - 1 zeros")
+        need(r"theExponentMark\[1\]\s*!=\s*'-'|theExponentMark\[1\]\s*!=\s*''", dsh, "formatSmallNumber: only negative exponents")
+        if len(re.findall(r"formatSmallNumber\(theValue,\s*theBuffer\)", dsh)) != 2:
+            die("formatSmallNumber is not called with (theValue, theBuffer) exactly twice")
+    int64_guarded = len(re.findall(r"theValue\s*>=\s*-9223372036854775808\.0\s*&&\s*theValue\s*<\s*9223372036854775808\.0\s*&&\s*static_cast<XMLInt64>\(theValue\)\s*==\s*theValue", dsh)) == 2
     # the double path is entered when static_cast<XMLInt64>(v) != v
     if len(re.findall(r"static_cast<XMLInt64>\(theValue\)\s*==\s*theValue", dsh)) != 2:
         die("the integer fast path test `static_cast<XMLInt64>(theValue) == theValue` was not found twice")
@@ -211,6 +224,63 @@ def main():
     st = strip(read(os.path.join(SRC, "XSLT", "Stylesheet.cpp")))
     m = need(r"conflictsArray\s*\[(\d+)\]", st, "conflictsArray")
     conf = int(m.group(1))
+    # the array is used unless `m_patternCount > sizeof(conflictsArray)/sizeof(conflictsArray[0])`, else a vector of m_patternCount
+    need(r"if\s*\(\s*m_patternCount\s*>\s*sizeof\(conflictsArray\)\s*/\s*sizeof\(conflictsArray\[0\]\)\s*\)\s*\{\s*conflictsVector\.resize\(m_patternCount\);\s*conflicts\s*=\s*conflictsVector\.begin\(\);\s*\}\s*else\s*\{\s*conflicts\s*=\s*conflictsArray;",
+         st, "conflictsArray / conflictsVector(m_patternCount) selection")
+    need(r"addObjectIfNotFound\(bestMatchedPattern,\s*conflicts,\s*nConflicts\);\s*conflicts\[nConflicts\+\+\]\s*=\s*matchPat;", st,
+         "the two stores of a conflict: addObjectIfNotFound(best) then conflicts[nConflicts++] = matchPat")
+    need(r"priorityOfRule\s*>\s*priorityOfBestMatched\s*\)\s*\{\s*nConflicts\s*=\s*0;", st, "a strictly better rule resets nConflicts")
+    need(r"\+\+m_patternCount;", st, "m_patternCount is incremented once per pattern entry created in addTemplate")
+
+    # XalanOutputStream::transcode retry loop: the no-progress guard, the doubling, the target size
+    xo = strip(read(os.path.join(SRC, "PlatformSupport", "XalanOutputStream.cpp")))
+    guard = bool(re.search(r"else\s+if\s*\(\s*theSourceBytesEaten\s*==\s*0\s*&&\s*theTargetBytesEaten\s*==\s*0\s*\)", xo))
+    need(r"theDestinationSize\s*=\s*theBufferLength\s*\*\s*(\d+)\s*;\s*size_type\s+theTargetSize\s*=\s*theDestinationSize\s*;", xo, "transcode: initial destination/target size")
+    need(r"theTargetSize\s*=\s*theDestinationSize\s*;[^;]*theDestinationSize\s*=\s*theDestinationSize\s*\*\s*2\s*;", xo, "transcode: target = old size, size doubles")
+    need(r"theDestination\.resize\(theDestinationSize\s*\+\s*1\)", xo, "transcode: destination resized to theDestinationSize + 1")
+    need(r"\+\s*theTotalBytesFilled,\s*theTargetSize,", xo, "transcode: writes at offset theTotalBytesFilled, at most theTargetSize bytes")
+    need(r"if\s*\(\s*theTotalBytesEaten\s*==\s*theBufferLength\s*\)\s*\{\s*fDone\s*=\s*true;", xo, "transcode: done when everything is eaten")
+
+    # XPathProcessorImpl::tokenize: the index only moves forward
+    xp = strip(read(os.path.join(SRC, "XPath", "XPathProcessorImpl.cpp")))
+    i0 = need(r"(?m)^XPathProcessorImpl::tokenize\(", xp, "tokenize definition").start()
+    i1 = xp.find("\nXPathProcessorImpl::", i0 + 10)
+    tk = xp[i0:i1]
+    need(r"for\(t_size_type\s+i\s*=\s*0;\s*i\s*<\s*nChars;\s*i\+\+\)", tk, "tokenize: for(i = 0; i < nChars; i++)")
+    if len(re.findall(r"for\(\+\+i;\s*i\s*<\s*nChars\s*&&\s*\(c\s*=\s*pat\[i\]\)\s*!=\s*XalanUnicode::char(?:QuoteMark|Apostrophe);\s*\+\+i\);", tk)) != 2:
+        die("tokenize: the two quote scans `for(++i; i < nChars && (c = pat[i]) != quote; ++i);` were not found")
+    # the number scan: `while(i < nChars - 1) { ++i; … --i; break; … }` — every `--i` undoes the `++i` of the same round and leaves the loop
+    need(r"while\(i\s*<\s*nChars\s*-\s*1\)\s*\{\s*\+\+i;", tk, "tokenize: number scan `while(i < nChars - 1) { ++i;`")
+    if len(re.findall(r"--i;\s*break;", tk)) != len(re.findall(r"--i\b", tk)) or len(re.findall(r"--i\b", tk)) > 2:
+        die("tokenize: a `--i` that is not `--i; break;` inside the number scan")
+    # two-character operators: `t_size_type theEnd = i + 1; if (… pat[theEnd] == '=') ++theEnd; … i = theEnd - 1;` — forward by 0 or 1 before the i++
+    tk_ops = tk
+    if re.search(r"\bi\s*=\s*theEnd\s*-\s*1\s*;", tk):
+        need(r"t_size_type\s+theEnd\s*=\s*i\s*\+\s*1\s*;", tk, "tokenize: theEnd = i + 1")
+        if re.search(r"theEnd\s*(?:=[^=]|-=|--)|--theEnd", tk.replace("t_size_type     theEnd = i + 1", "").replace("t_size_type theEnd = i + 1", "")):
+            die("tokenize: theEnd is modified other than by ++theEnd")
+        tk_ops = re.sub(r"\bi\s*=\s*theEnd\s*-\s*1\s*;", "", tk)
+    if re.search(r"\bi--|\bi\s*-=|\bi\s*=[^=]", tk_ops.replace("t_size_type i = 0", "")):
+        die("tokenize: the scan index is assigned or decremented somewhere: the termination model no longer applies")
+    # ElemNumber::getPreviousNode (level any): null checks precede both pattern tests; the walk only uses previous sibling / last child / parent
+    g0 = need(r"(?m)^ElemNumber::getPreviousNode\(", en, "getPreviousNode definition").start()
+    g1 = en.find("\nElemNumber::", g0 + 10)
+    gp = en[g0:g1]
+    need(r"if\(0\s*!=\s*next\s*&&\s*0\s*!=\s*fromMatchPattern\s*&&\s*fromMatchPattern->getMatchScore\(\s*next,", gp, "getPreviousNode: `0 != next &&` before the from test")
+    need(r"if\(0\s*!=\s*pos\s*&&\s*\(0\s*==\s*countMatchPattern\s*\|\|\s*countMatchPattern->getMatchScore\(\s*pos,", gp, "getPreviousNode: `0 != pos &&` before the count test")
+    nav = set(re.findall(r"->(get\w+)\(\)", gp))
+    if not nav <= {"getPreviousSibling", "getParentNode", "getLastChild"}:
+        die("getPreviousNode navigates with %s: the document-order measure no longer applies" % sorted(nav))
+
+    # double -> integer conversions: are they preceded by a range test on the double?
+    xpc = strip(read(os.path.join(SRC, "XPath", "XPath.cpp")))
+    need(r"if\s*\(theIndex\s*<=\s*0\.0\s*\|\|", xpc, "XPath::predicates: numeric literal shortcut `if (theIndex <= 0.0 ||`")
+    pred_guarded = bool(re.search(r"theIndex\s*<=\s*0\.0\s*\|\|\s*theIndex\s*>\s*double\(theLength\)\s*\|\|\s*double\(NodeRefListBase::size_type\(theIndex\)\)\s*!=\s*theIndex", xpc))
+    if not pred_guarded:
+        need(r"theIndex\s*<=\s*0\.0\s*\|\|\s*NodeRefListBase::size_type\(theIndex\)\s*>\s*theLength\s*\|\|", xpc, "XPath::predicates: known shape of the index test")
+    need(r"DoubleSupport::lessThan\(theValue,\s*0\.5\)\s*==\s*true", en, "ElemNumber: value < 0.5 test")
+    num_guarded = bool(re.search(r"DoubleSupport::lessThan\(theValue,\s*0\.5\)\s*==\s*true\s*\|\|\s*theValue\s*>=\s*double\(std::numeric_limits<CountType>::max\(\)\)\)", en))
+    need(r"CountType\(DoubleSupport::round\(theValue\)\)", en, "ElemNumber: CountType(round(theValue))")
 
     # inventory (information)
     inv = []
@@ -236,6 +306,11 @@ def main():
     L.append("def intBufferEnd : Nat := %d" % int_end)
     L.append("/-- PointerToDOMString: sprintf(\"%%p\") buffer (at most 2 + 16 characters + NUL are stored) -/")
     L.append("def pointerBufferSize : Nat := %d" % pointer_buf)
+    L.append("/-- formatSmallNumber: size of `char theScientific[…]` (0 = the function does not exist) and the number of significant digits it expands -/")
+    L.append("def scientificBufferSize : Nat := %d" % sci)
+    L.append("def smallNumberDigits : Nat := %d" % small_digits)
+    L.append("/-- the integer fast path tests the range of the double before `static_cast<XMLInt64>` -/")
+    L.append("def int64CastGuarded : Bool := %s" % ("true" if int64_guarded else "false"))
     L.append("/-- precisions N of the \"%.Nf\" formats tried in order -/")
     L.append("def printfPrecisions : List Nat := [%s]" % ", ".join(str(p) for p in precs))
     L.append("")
@@ -262,8 +337,14 @@ def main():
     L.append("  ⟨\"XPathCAPI transcodeString theChars/theCharsCount\", %d, %s, %d, 0⟩" % (xc_size, "true" if xc_strict else "false", xc_size))
     L.append("]")
     L.append("")
-    L.append("/-- Stylesheet::findTemplate conflictsArray (not modelled; listed) -/")
+    L.append("/-- Stylesheet::findTemplate: `conflictsArray[N]`, used unless m_patternCount > N (then a vector of m_patternCount entries) -/")
     L.append("def conflictsArraySize : Nat := %d" % conf)
+    L.append("/-- XPath::predicates compares the numeric literal with the list length as doubles before converting it to size_type -/")
+    L.append("def predicateCastGuarded : Bool := %s" % ("true" if pred_guarded else "false"))
+    L.append("/-- ElemNumber tests `theValue >= double(numeric_limits<CountType>::max())` before `CountType(round(theValue))` -/")
+    L.append("def numberValueCastGuarded : Bool := %s" % ("true" if num_guarded else "false"))
+    L.append("/-- XalanOutputStream::transcode: the retry loop stops when the transcoder made no progress (`else if (src == 0 && tgt == 0)`) -/")
+    L.append("def transcodeNoProgressGuard : Bool := %s" % ("true" if guard else "false"))
     L.append("")
     L.append("end XalanModel.Generated.C03_Buffers")
     os.makedirs(GEN, exist_ok=True)
